@@ -355,9 +355,18 @@ func c14Concurrent(r *Run, cfg *Stream) {
 		record1(90, c14cIn{Kind: "mutate", Key: "a", Fam: "f1", Val: "v0", Desc: `MutateRow "a" f1=v0 (setup)`})
 	}
 	plans := make([][]c14cIn, nClients)
-	shape := cfg.Intn(4)
+	shape := cfg.Intn(5)
 	if r.Tier == "quick" && r.Index%16 < 6 {
 		shape = 0
+	}
+	if shape == 4 {
+		// directed: the table has two families; one client drops the second while another
+		// sends a read-modify-write that names both
+		if !preCreate {
+			record1(90, c14cIn{Kind: "create", Desc: "CreateTable t (setup)"})
+		}
+		record1(90, c14cIn{Kind: "addf2", Desc: "Modify{create f2} (setup)"})
+		r.Probe("c14.rmw_vs_family_drop")
 	}
 	for c := range plans {
 		ps := r.T.S(fmt.Sprintf("prog.%d", c))
@@ -367,6 +376,12 @@ func c14Concurrent(r *Run, cfg *Stream) {
 			if shape == 0 && i == 0 {
 				// directed: every client starts with CreateTable of the same name
 				in = c14cIn{Kind: "create", Desc: "CreateTable t"}
+			}
+			if shape == 4 && i == 0 && c == 0 {
+				in = c14cIn{Kind: "rmw2", Key: "a", Desc: `ReadModifyWriteRow "a" {append f1:a, append f2:a}`}
+			}
+			if shape == 4 && i == 0 && c == 1 {
+				in = c14cIn{Kind: "dropf2", Desc: "Modify{drop f2}"}
 			}
 			if i < nOps {
 				plans[c] = append(plans[c], in)
